@@ -65,13 +65,14 @@ theorem initial_state_canonical (initial : String) (c : Parser.CreateReq) (h : p
 
 /-- what every resolvable DID looks like: own namespace and a colon; a last segment that is the
     canonical initial state of a create request the parser accepts under the handler's protocol;
-    and a preceding segment equal to that request's suffix -/
+    and before it nothing but the namespace, a colon and that request's suffix (D49) -/
 theorem resolve_shape (ns did : String) (r : Json) (h : resolve H orc ns did = some r) :
     (ns.toList ++ [':']).isPrefixOf did.toList = true ∧
     ∃ did' initial req size op, parseDID ns did = .long did' initial req size ∧
       Parser.parse H defaultCfg orc ns size (some req) = some op ∧
       (splitColon did'.toList).getLast? = some op.uniqueSuffix.toList ∧
-      3 ≤ (splitColon did'.toList).length := by
+      3 ≤ (splitColon did'.toList).length ∧
+      did' = ns ++ ":" ++ op.uniqueSuffix := by
   unfold resolve at h
   by_cases hp : (ns.toList ++ [':']).isPrefixOf did.toList = true
   · refine ⟨hp, ?_⟩
@@ -89,7 +90,12 @@ theorem resolve_shape (ns did : String) (r : Json) (h : resolve H orc ns did = s
         | some op =>
           simp only [hop] at h
           by_cases hs : String.ofList ((splitColon did'.toList).getLast?.getD []) = op.uniqueSuffix
-          · refine ⟨did', initial, req, size, op, rfl, hop, ?_, by omega⟩
+          · have hdid : did' = ns ++ ":" ++ op.uniqueSuffix := by
+              simp only [hs, ne_eq, not_true_eq_false, if_false] at h
+              by_cases hd' : did' = ns ++ ":" ++ op.uniqueSuffix
+              · exact hd'
+              · simp [hd'] at h
+            refine ⟨did', initial, req, size, op, rfl, hop, ?_, by omega, hdid⟩
             cases hg : (splitColon did'.toList).getLast? with
             | none =>
               have : (splitColon did'.toList).length = 0 := by
